@@ -11,8 +11,8 @@ import os
 import re
 import sys
 
-REPO = "/repo"
-OUT = "/verif/lean/MidnightZK/Gen/C07Poseidon.lean"
+REPO = os.environ.get("VERIF_REPO", "/repo")
+OUT = os.path.join(os.path.dirname(os.path.abspath(__file__)), "..", "lean", "MidnightZK", "Gen", "C07Poseidon.lean")
 P = os.path.join(REPO, "circuits/src/hash/poseidon")
 
 
@@ -121,9 +121,9 @@ def main():
         return "[\n" + ",\n".join("  [" + ", ".join(f"0x{v:x}" for v in r) + "]" for r in rows) + "]"
 
     out = []
-    out.append("/-! GENERATED by translators/c07_poseidon.py from /repo/circuits/src/hash/poseidon/"
+    out.append("/-! GENERATED by translators/c07_poseidon.py from circuits/src/hash/poseidon/"
                "{constants/mod.rs,constants/blstrs.rs,poseidon_cpu.rs,poseidon_chip.rs} and "
-               "/repo/curves/src/bls12_381/fq.rs — do not edit. -/")
+               "curves/src/bls12_381/fq.rs of the repository — do not edit. -/")
     out.append("namespace MidnightZK.C07.Gen")
     out.append("")
     out.append("/-- `Fq::MODULUS` (scalar field of BLS12-381, the native field of the circuits). -/")
@@ -151,7 +151,7 @@ def main():
     old = open(OUT).read() if os.path.exists(OUT) else None
     if old != text:
         open(OUT, "w").write(text)
-    print(f"c07_poseidon: wrote {OUT} ({len(rc)} round-constant rows, {width}x{width} MDS)")
+    print(f"c07_poseidon: wrote {os.path.normpath(OUT)} ({len(rc)} round-constant rows, {width}x{width} MDS)")
 
 
 if __name__ == "__main__":
